@@ -491,6 +491,15 @@ int main( int argc, char** argv )
          ok = for_each_token_string( tok, len, [ & ]( const std::string& s ) { run_contexts( s, direct ); } );
       }
       domain_done( "D3", ok );
+      // D3c: the same around the maximum number of groups: a six-group prefix as one token, so that 7 and 8 explicit groups
+      // with and without "::" and an IPv4 tail are reached within 6 tokens (boundaries of the bounded repetitions of the grammar)
+      if( ok ) {
+         const std::vector< std::string > tok6 = { "1:1:1:1:1:1:", "1:1:1:1:1:", "1:", "1", "::", ":", "1.2.3.4", "abcd" };
+         for( int len = 1; ok && len <= 6; ++len ) {
+            ok = for_each_token_string( tok6, len, [ & ]( const std::string& s ) { run_contexts( s, direct ); } );
+         }
+         domain_done( "D3c", ok );
+      }
       for( int len = 0; ok && len <= Lb; ++len ) {
          ok = for_each_token_string( tok, len, [ & ]( const std::string& s ) { run_contexts( s, bracket ); } );
       }
@@ -538,13 +547,35 @@ int main( int argc, char** argv )
       domain_done( "D4", ok );
    }
 
+   // ---- D5 ------------------------------------------------------------------------------------
+   // every one of the 256 byte values replaced / inserted at every position of every corpus string: the class
+   // representatives of D1 cover the classes of RFC 3986, this covers each individual byte (a grammar that lets a
+   // single excluded character such as '{', '|', '`' or DEL slip into a class is caught here)
+   if( ok ) {
+      std::string E;
+      for( int b = 0; b < 256; ++b ) E += char( b );
+      const unsigned long long ns = vf::args.nshards;
+      auto mine = [ & ]() { return ( g_base++ % ns ) == (unsigned long long)vf::args.shard; };
+      std::vector< std::string > e1;
+      for( const std::string& d : corpus() ) {
+         if( !ok ) break;
+         e1.clear();
+         single_edits( d, E, e1 );
+         for( const auto& t : e1 ) {
+            if( mine() ) check_string( t, ALL );
+         }
+         if( vf::out_of_time() ) ok = false;
+      }
+      domain_done( "D5", ok );
+   }
+
    const std::string nc = std::to_string( corpus().size() );
    std::string note = T ? "thorough: D1 all strings len<=6 over 22 class representatives [agv012569.:/?#[]@%!-+ SP] + len 7 over the 16 [agv01.:/?#[]@%-+], x 5 rules; D2a 1..5 dotted slots of 16 octet tokens x 6 contexts; "
                           "D2b <=8 tokens over {0 1 25 255 256 01 a .} x 6 contexts; D3 <=9 tokens over 9 IPv6 tokens {1 abcd 12345 : :: 1.2.3.4 255.255.255.255 1.2.3.256 1:} as IPv6address (19 strings > 126 bytes skipped, counter skipped_too_long), D3b <=8 tokens inside //[..] and <=7 inside a://[..]:8/; "
-                          "D4 all single byte edits (30 edit bytes) of " + nc + " RFC 3986 corpus strings and all double edits of those of length<=12, x 5 rules; every library run repeated with a poison tail behind the input"
+                          "D4 all single byte edits (30 edit bytes) of " + nc + " RFC 3986 corpus strings and all double edits of those of length<=12, x 5 rules; D5 all single byte edits with all 256 byte values; every library run repeated with a poison tail behind the input"
                         : "quick: D1 all strings len<=5 over 22 class representatives [agv012569.:/?#[]@%!-+ SP] + len 6 over the 16 [agv01.:/?#[]@%-+], x 5 rules; D2a 1..5 dotted slots of 16 octet tokens x 6 contexts; "
                           "D2b <=7 tokens over {0 1 25 255 256 01 a .} x 6 contexts; D3 <=8 tokens over 9 IPv6 tokens {1 abcd 12345 : :: 1.2.3.4 255.255.255.255 1.2.3.256 1:} as IPv6address, D3b <=6 tokens inside //[..]; "
-                          "D4 all single byte edits (30 edit bytes) of " + nc + " RFC 3986 corpus strings x 5 rules; every library run repeated with a poison tail behind the input";
+                          "D4 all single byte edits (30 edit bytes) of " + nc + " RFC 3986 corpus strings x 5 rules; D5 the same with all 256 byte values; every library run repeated with a poison tail behind the input";
    vf::st.note = note + "; this shard:" + g_domain_note;
    vf::count( "ref_accept", c_ref_accept );
    vf::count( "ref_reject", c_ref_reject );
